@@ -9,6 +9,7 @@ import numpy as np
 from .. import common, sites
 from ..gen import xmap as G
 from ..main import lean_phase
+from . import xmap_views
 from .c11 import try_, lst, shrink_history
 
 SG = [225, 229, 194, 62, 2, 221]
@@ -546,11 +547,13 @@ SITES = {
     "phaselist_getitem": sites.Site("phaselist_getitem", "corr", plget_check, plget_lines),
     "invariant": sites.Site("invariant", "prop", inv_check),
     "prop_assign_dtype": sites.Site("prop_assign_dtype", "prop", dtype_check),
+    "live_views_assign": sites.Site("live_views_assign", "prop", xmap_views.views_assign_check),
 }
 
 
 # no open finding for C12: the three defects found by this check were repaired by `fix:` commits 1077dd8,
 # bb01d48 and fe80c2f; the model follows the repaired code, so a reverted fix is a VIOLATION
+
 PREDICATES = {}
 
 
@@ -847,6 +850,14 @@ def generate(ctx):
         yield "prop_assign_dtype", c
 
 
+def generate_views(ctx):
+    rng = ctx.rng
+    for i in range(80 if ctx.tier == "quick" else 800):
+        c = xmap_views.gen_views_case(rng, assign=True)
+        ctx.count("live_views_assign", ("lva", i, tuple(c["shape"]), len(c["ops"])))
+        yield "live_views_assign", c
+
+
 def run(ctx, status):
     driver_ok = lean_phase(ctx, status, ["OrixProofs.Properties.C12"])
     if ctx.replay:
@@ -854,7 +865,7 @@ def run(ctx, status):
         if site in SITES:
             sites.run_cases(ctx, SITES, [(site, case)], driver_ok)
     else:
-        sites.run_cases(ctx, SITES, generate(ctx), driver_ok)
+        sites.run_cases(ctx, SITES, list(generate(ctx)) + list(generate_views(ctx)), driver_ok)
     return common.finish(
         ctx, "proof", PREDICATES,
         rule="seeded stratified generation of phase-id arrays (contiguous, with -1, sparse, all -1, single, gaps), "
